@@ -8,7 +8,9 @@ RULE = ("every case = (old content at path A: absent / EMD file / junk bytes / n
         "in half of the overwrites of an HDF5 file the OLD file is still held open read-only elsewhere in the process; "
         "non-trivial = old content present; distinct by recipe hash")
 MODES = ["w", "write", "o", "overwrite", "a", "+", "append", "ao", "oa", "o+", "+o", "appendover"]
-BAD = ["", "r", "x", "W", "wa", "append-over", "ow", "A"]
+BAD = ["", "r", "x", "W", "wa", "append-over", "ow", "A",
+       # fragments, joins and near-misses of the documented spellings (membership in the LIST of spellings, not in their text)
+       "over", "app", "rite", "end", "ppend", "writ", " ", ", ", "w, write", "a, +", "o+o", "ao ", " w", "w\n", "Write", "APPEND", "a+", "++"]
 
 
 def gen_input(r, trees, k=None):
@@ -69,6 +71,8 @@ def cases(tier, seed):
         sv = dict({"do": "save", "path": "A", "mode": mode, "tree": opt, "emdpath": None}, **inp)
         if cls(mode) == "o" and old in ("emd", "foreign") and r.random() < 0.5:
             sv["hold_open"] = True      # the old file is still open (read-only) elsewhere in the process while it is replaced
+        if r.random() < 0.15:
+            sv["mode_as"] = r.choice(["np.str_", "str_subclass"])      # the mode string as a numpy string / a str subclass
         steps.append(sv)
         steps.append({"do": "hash", "path": "A"})
         steps.append({"do": "walk", "path": "A"})
